@@ -21,7 +21,7 @@ import json
 import time
 
 from . import build, project, tracecheck
-from .core import MachineryError, Part, merge_worker_outputs, parallel_replay
+from .core import trim, MachineryError, Part, merge_worker_outputs, parallel_replay
 from .tlc import run_tlc
 
 _st: dict = {}
@@ -284,6 +284,10 @@ def replay_state(st: dict, out: dict, want_event: bool) -> None:
     if noop_breaks:
         V(["C14"], "a documented no-op call did not return the relation itself", calls=noop_breaks)
     try:
+        hash(rel)
+    except TypeError as exc:
+        V(["C09"], f"a relation built by the factories is not hashable: {exc}", relation=str(rel))
+    try:
         got = project.rows(rel.engine.execute(rel))
     except Exception as exc:  # noqa: BLE001
         V(["C01", "C08"], f"execute() raised {type(exc).__name__}: {exc}")
@@ -416,8 +420,8 @@ def worker(lines, ctx):
             out["nontrivial"] += 1
         nv = len(out["violations"])
         replay_state(st, out, want_event=(i % every == 0))
-        if len(out["violations"]) > 40:
-            out["violations"] = out["violations"][:40]
+        if len(out["violations"]) > 60:
+            out["violations"] = trim(out["violations"])
         if len(out["samples"]) < 1 and st["fired"] and len(st["hist"]) >= 2:
             out["samples"].append({"l1": st["l1"], "hist": st["hist"], "expected_rows": st["rows"], "model_tree": canon_tree(st["tree"])})
     return out
